@@ -4,7 +4,7 @@
 # and store it under /verif/seeded/<ID>/.
 set -u
 ID=$1; shift
-CHECKS=${@:-$ID}
+CHECKS=${@:-${ID:0:3}}   # ids like C03b are further changes for property C03
 W=/tmp/seed/$ID; S=$W/.seed
 export GOFLAGS=-mod=mod GOPROXY=off
 [ -f $S/patch.diff ] || { echo "no patch.diff"; exit 2; }
